@@ -117,6 +117,8 @@ class Adapter(object):
     self.issued = set()     # concrete eids seen
     self.nsub = 0
     self.auto = None        # list while a RaiseSimple runs
+    self.deliv = []         # per delivery in progress: handlers invoked so far
+    self.weakh = set()      # (o, m) that were ever subscribed weakly
     self.ninv = 0
     # baton
     self.sem_cmd = threading.Semaphore(0)
@@ -164,6 +166,11 @@ class Adapter(object):
     sig["expected"] = exp.get("k")
     if a == "Unsubscribe":
       sig["mode"] = args.get("mode")
+      sig["handler_weakly_subscribed"] = (args.get("o"), args.get("m")) in self.weakh
+    if isinstance(obs, dict) and obs.get("k") == "inv":
+      # the handler reported by the failing step had already run in this delivery
+      d = self.deliv[-1] if self.deliv else []
+      sig["handler_already_invoked"] = d.count((obs.get("o"), obs.get("m"))) > 1
     if a == "Subscribe":
       sig["weak"] = args.get("weak")
       sig["declared"] = args.get("t") in self.types
@@ -236,6 +243,8 @@ class Adapter(object):
       if len(self.auto) > 500:
         raise _Abort()
       return None
+    if self.deliv:
+      self.deliv[-1].append((owner._name, m))
     self._post(O0(k="inv", o=owner._name, m=m, n=self._count()))
     return self._loop(ev, owner)
 
@@ -284,6 +293,8 @@ class Adapter(object):
         return O0(k="rejected", n=self._count())
       finally:
         h = None
+      if weak:
+        self.weakh.add((args["o"], "h"))
       if res[0] is not EV[t]:
         return O0(k="sub", id=-3, n=self._count())
       return O0(k="sub", id=self._bind(res), n=self._count())
@@ -299,6 +310,8 @@ class Adapter(object):
       else:
         res = revent.autoBindEvents(o, src, priority=prio)
       o = None
+      if weak:
+        self.weakh.update((args["o"], t) for t in self.types)
       byt = {}
       for r in res:
         byt.setdefault(r[0], []).append(r)
@@ -341,11 +354,15 @@ class Adapter(object):
       old_err = sys.stderr
       if self.hookname == "default":
         sys.stderr = io.StringIO()
+      if not simple:
+        self.deliv.append([])
       try:
         try:
           res = fn(ev)
         finally:
           sys.stderr = old_err
+          if not simple:
+            self.last_deliv = self.deliv.pop()
           seq = self.auto if simple else []
           if simple:
             self.auto = None
